@@ -143,8 +143,9 @@ class ExcAnalysis:
             elif isinstance(node, ast.Subscript) and \
                     func.module.name in self.tainted and isinstance(
                         node.ctx, ast.Load):
-                for cls_, why in self._primitive_subscript(func, node,
-                                                           parents):
+                for cls_, why in list(self._primitive_subscript(
+                        func, node, parents)) + list(
+                            self._primitive_dict_value(func, node, parents)):
                     self.n_primitive_sites += 1
                     facts.append((node, cls_, [
                         f'{func.key}: {why} ({func.where(node)})']))
@@ -319,6 +320,53 @@ class ExcAnalysis:
         else:
             yield 'IndexError', f'{txt(node)} index not bounded by the ' \
                                 f'guards'
+
+    def _primitive_dict_value(self, func, node, parents):
+        '''`val[key]` where `val` ranges over ALL the values of a dictionary
+        (`for k, val in d.items()`) and `key` is a variable: the dictionaries
+        the scanner fills from the lines of the listing (one per kind of
+        time, per kind of flag) do not all hold every key - which ones do
+        depends on where the listing stops.  KeyError unless guarded by
+        `key in val`.'''
+        if not (isinstance(node.value, ast.Name) and isinstance(
+                node.slice, ast.Name)):
+            return
+        vals = set()
+        for sub in ast.walk(func.node):
+            if isinstance(sub, (ast.For, ast.comprehension)) and isinstance(
+                    sub.iter, ast.Call) and isinstance(
+                        sub.iter.func, ast.Attribute):
+                tgt = sub.target
+                if sub.iter.func.attr == 'items' and isinstance(
+                        tgt, ast.Tuple) and len(tgt.elts) == 2 and \
+                        isinstance(tgt.elts[1], ast.Name):
+                    vals.add(tgt.elts[1].id)
+                elif sub.iter.func.attr == 'values' and isinstance(
+                        tgt, ast.Name):
+                    vals.add(tgt.id)
+        if node.value.id not in vals:
+            return
+        guard = f'{node.slice.id} in {node.value.id}'
+        cur = node
+        while cur is not None:
+            par = parents.get(id(cur))
+            tests = []
+            if isinstance(par, (ast.If, ast.IfExp)) and cur is not par.test:
+                tests.append(par.test)
+            if isinstance(par, ast.comprehension):
+                tests.extend(par.ifs)
+            if isinstance(par, (ast.DictComp, ast.ListComp, ast.SetComp,
+                                ast.GeneratorExp)):
+                for gen in par.generators:
+                    tests.extend(gen.ifs)
+            if any(guard in txt(t) and 'not in' not in txt(t)
+                   for t in tests):
+                return
+            cur = par
+        yield 'KeyError', (f'{txt(node)}: {node.value.id} ranges over all '
+                           f'the values of a dictionary filled from the '
+                           f'listing, not all of them hold '
+                           f'{node.slice.id}')
 
     def _split_fields(self, func):
         '''Names bound to tokens of a split line: targets of an unpacking
